@@ -53,6 +53,8 @@ def case(draw, tier):
          # fieldmap: an output field is added to the caller's mappings object after the view was first used
          "late_mapping": draw(st.integers(0, 3)) == 0,
          "plain_fn": draw(st.booleans()),
+         # convert: pass_row=True - the converter is handed (value, row)
+         "pass_row": draw(st.integers(0, 3)) == 0,
          # convert: rows left out by where= (their cells may well be ones the converter fails on)
          "skip_rows": sorted(draw(st.lists(st.integers(0, max(0, n - 1)), max_size=2, unique=True))) if (n and draw(st.integers(0, 2)) == 0) else [],
          # fieldmap: data rows cut short (row index -> remaining length >= 1)
@@ -151,8 +153,17 @@ def check(case, ctx):
                 inner = etl.convert(tbl, hdr[fields[0]], conv, errorvalue=inner_ev, **kw)
                 view = etl.convert(inner, hdr[fields[1]], conv, errorvalue=errorvalue, **kw)
             elif op in ("convert", "convert-multi"):
-                spec = hdr[fields[0]] if op == "convert" else dict((hdr[f], conv) for f in fields)
                 wkw = dict(kw)
+                if case.get("pass_row"):
+                    # pass_row=True: the converter gets the value and the whole (original) row, under every policy
+                    conv1 = conv
+
+                    def conv(v, row):   # noqa
+                        return conv1(v) + (tuple(row), row[hdr[0]])
+                    okval = lambda r, f: ("ok", _tok(r, f), tuple(tbl[1 + r]), tbl[1 + r][0])  # noqa
+                    wkw["pass_row"] = True
+                    ctx.label("pass-row")
+                spec = hdr[fields[0]] if op == "convert" else dict((hdr[f], conv) for f in fields)
                 if skip_rows:
                     # where=: the converter is only ever applied to the selected rows - a value it would choke on in a row
                     # that is not selected is none of its business, under any policy
